@@ -6,7 +6,7 @@ import collections
 import json
 import os
 
-from .common import Report, scratch, seed, MachineryError
+from .common import Report, scratch, eff_seed, MachineryError
 from .edges import make_jobs, run_jobs
 from .machine import run_units, classify, trap_kind, replay_unit
 from .facts import edge_sig
@@ -53,7 +53,7 @@ def verdict_class(v):
 
 
 def collect_edges(modules, tier, cap, ops=None, depth2=0, select=None, nshards=4, **kw):
-    jobs = make_jobs(modules, seed(), cap, nshards=nshards, ops=ops, depth2=depth2, select=select, **kw)
+    jobs = make_jobs(modules, eff_seed(), cap, nshards=nshards, ops=ops, depth2=depth2, select=select, **kw)
     edges = run_jobs(jobs)
     edges.sort(key=lambda e: (e["prog"], e["op"], e["args"], str(e.get("chain"))))
     return edges
